@@ -217,6 +217,27 @@ func runC14(r *Run) {
 			"the community pool is written with something other than DecCoins.Add(<stored pool>, <dec coins of amounts>): part of the redirected burn may not be credited to the pool")
 	})
 	r.Floor("R2", "stores into FeePool.CommunityPool", nPoolStores, 1)
+	// R5: what is written into the fee pool can be read back
+	r.Rule("R5", "PATH.redirected-amount-is-bounded: a coin amount is a 256-bit integer (an IBC voucher can be received with 2^256-1 units and deposited on a proposal), the community pool holds 18-decimal fixed-point numbers of at most 315 bits, and Dec.Marshal does not check the length while Dec.Unmarshal does. The redirect branch converts the burned amounts with NewDecCoinsFromCoins and writes the pool raw: some branch condition on the way from the conversion to the store must depend on the amounts (a bound that diverts what cannot be represented) — otherwise a vetoed proposal with such a deposit stores a pool that can never be read again and the next BeginBlock panics on every node")
+	{
+		bounded := false
+		for _, b := range fn.Blocks {
+			ifi, ok := lastIf(b)
+			if !ok {
+				continue
+			}
+			sl := backSlice(ifi.Cond)
+			if sl.HasParam("amounts") && (sl.HasCall(func(g CallInfo) bool {
+				n := g.Name
+				return n == "BitLen" || n == "LT" || n == "LTE" || n == "GT" || n == "GTE" || strings.Contains(n, "Overflow") || strings.Contains(n, "Bound")
+			})) {
+				bounded = true
+			}
+		}
+		converts := len(findCalls(fn, func(ci CallInfo) bool { return ci.Name == "NewDecCoinsFromCoins" || ci.Name == "NewDecCoinFromCoin" })) > 0
+		r.Check(bounded || !converts, "R5", fnID(fn)+"#redirected-amount-is-bounded", where, "a bound on the amounts guards the conversion",
+			"the redirect converts 256-bit coin amounts into 315-bit fixed-point numbers and stores the pool without any bound: BurnCoins(gov, [1 ISLM, 2^256-1 ibc/…]) — the deposit of a vetoed proposal — writes a FeePool whose next read fails ('decimal out of range; got: 316, max: 315'): distribution BeginBlocker panics, the chain halts")
+	}
 	// when the credit is assembled coin by coin, no coin of the burn is passed over
 	for _, h := range fn.Blocks {
 		if !isLoopHeader(h) {
